@@ -9,10 +9,10 @@ extern "C" {
 #include "a/que.h"
 }
 
-enum { L_RECYCLE, L_QSWAP_NONEMPTY, L_ESWAP, L_INSERT_MID, L_REMOVE_MID, L_SORT_FORE, L_SORT_BACK, L_PUSH_SORT, L_DROP, L_SETZ_GROW, L_AT_NEG, L_BIGIDX, L_FAULT_HIT, L_FAULT_LATE, L_LEN16, L_FOREACH };
+enum { L_RECYCLE, L_QSWAP_NONEMPTY, L_ESWAP, L_INSERT_MID, L_REMOVE_MID, L_SORT_FORE, L_SORT_BACK, L_PUSH_SORT, L_DROP, L_SETZ_GROW, L_AT_NEG, L_BIGIDX, L_FAULT_HIT, L_FAULT_LATE, L_LEN16, L_FOREACH, L_ESWAP_ADJ };
 static char const *const labels[] = {"pull_then_two_pushes_recycling", "queue_swap_nonempty", "element_swap", "insert_in_middle", "remove_in_middle",
                                      "sort_fore", "sort_back", "push_sort", "drop_nonempty", "setz_larger_element", "at_negative_index", "index_ge_2^32",
-                                     "fault_hit_library_request", "fault_not_in_first_op", "len_ge_16", "foreach_macro", nullptr};
+                                     "fault_hit_library_request", "fault_not_in_first_op", "len_ge_16", "foreach_macro", "element_swap_adjacent", nullptr};
 static char const *const metrics[] = {"max_len", "faulty_executions", nullptr};
 static uint8_t const dict[] = {3, 4, 5, 6, 11, 12, 13};
 #ifdef VP_FAULT
@@ -380,11 +380,9 @@ static void run_history(Tape &t, Ctx &cx, uint64_t fail_at, int mode, uint64_t *
             if (q.m.empty() || o.m.empty()) { break; }
             size_t i = t.u8() % q.m.size(), j = t.u8() % o.m.size();
             cx.hash.add(i * 64 + j);
-            if (&o == &q && i != j && (i > j ? i - j : j - i) == 1)
-            {
-                ++cx.rep->excluded; // adjacent elements: outside the statement's precondition
-                break;
-            }
+            // adjacent elements are a legitimate sequence operation for the queue (the statement restricts
+            // adjacency only for the raw list primitives), so they are generated too
+            if (&o == &q && i != j && (i > j ? i - j : j - i) == 1) { cx.label(L_ESWAP_ADJ); }
             if (o.siz != q.siz && &o != &q)
             {
                 ++cx.rep->excluded; // nodes of different payload size must not change queues
